@@ -208,6 +208,8 @@ def same_unit_string_different_types(ctx, db, r, n):
 
 # ------------------------------------------------------------------------------- equality
 def equality_pool(r):
+    import decimal
+    import fractions as pyfractions
     from collections import OrderedDict
     import numpy as np
     from barril.basic.fraction import Fraction, FractionValue
@@ -252,12 +254,28 @@ def equality_pool(r):
         "Quantity(derived a/b, categories reordered)": Quantity.CreateDerived(OrderedDict([("time", ["s", -1]), ("length", ["m", 1])])),
         "Array(unknown,caption)": Array(GetUnknownQuantity("Feeeet"), [1.0, 2.0]), "Array(unknown,other caption)": Array(GetUnknownQuantity("API units"), [1.0, 2.0]),
         "FixedArray(unknown,caption)": FixedArray(2, GetUnknownQuantity("Feeeet"), [1.0, 2.0]),
+        "UnitSystem(id None)": UnitSystem(None, "Null", {}, True), "UnitSystem(the manager's null system)": _null_system(),
+        "fractions.Fraction": pyfractions.Fraction(1, 2), "Decimal": decimal.Decimal("0.5"), "rational look-alike": _Rational(1, 2), "np.int64": np.int64(1), "np.float64": np.float64(0.5),
+        "complex": 1 + 0j, "bytes": b"x", "frozenset": frozenset([1]), "range": range(2), "type": Scalar,
         "None": None, "str": "x", "int": 1, "float": 0.5, "tuple": (1, 2), "list": [1.0, 2.0], "dict": {"a": 1}, "object": object(), "bool": True, "int0": 0, "float1.5": 1.5,
     }  # fmt: skip
     return objs
 
 
-FOREIGN = {"None", "str", "int", "float", "tuple", "list", "dict", "object", "bool", "int0", "float1.5"}
+FOREIGN = {"None", "str", "int", "float", "tuple", "list", "dict", "object", "bool", "int0", "float1.5", "fractions.Fraction", "Decimal", "rational look-alike", "np.int64", "np.float64", "complex", "bytes", "frozenset", "range", "type"}
+
+
+class _Rational:
+    """an unrelated object that happens to have numerator / denominator attributes"""
+
+    def __init__(self, n, d):
+        self.numerator, self.denominator = n, d
+
+
+def _null_system():
+    from barril.units.unit_system_manager import UnitSystemManager
+
+    return UnitSystemManager().GetCurrent()
 
 
 def equality_sweep(ctx, r):
@@ -276,6 +294,8 @@ def equality_sweep(ctx, r):
     for na, nb in itertools.product(names, repeat=2):
         if na in FOREIGN and nb in FOREIGN:
             continue
+        if na in ("np.int64", "np.float64"):
+            continue  # with a numpy scalar on the left numpy's own == runs first and broadcasts over anything iterable (see DESIGN 9.4)
         a, b = objs[na], objs[nb]
         case = {"a": na, "b": nb}
         ctx.ev()
